@@ -25,8 +25,9 @@ type gramCase struct {
 	PRoot         bool          `json:"parseable_root,omitempty"` // C10: the root production is user code that accepts any token stream
 	// Derived > 0 (C11): Input2 is parsed by a parser derived for that inner production (ParserForProduction) after the
 	// grammar's own parser has parsed Input (DerivedFirst: before)
-	Derived      int  `json:"derived,omitempty"`
-	DerivedFirst bool `json:"derived_first,omitempty"`
+	Derived      int    `json:"derived,omitempty"`
+	DerivedFirst bool   `json:"derived_first,omitempty"`
+	DerivedAlt   string `json:"derived_alt,omitempty"` // C10: another rendering of Input2's tokens
 }
 
 // parsed is everything one (grammar, input) evaluation produced.
@@ -251,6 +252,13 @@ func FuzzC01(f *testing.F) { fuzzProp(f, "C01", propC01) }
 
 func propC01(t *rapid.T, r *vstat.Run) {
 	{
+		if rapid.IntRange(0, 19).Draw(t, "derived") == 0 {
+			// a parser derived for an inner production (ParserForProduction) means what that production means
+			if c, b, _ := genDerived(t, r); c != nil {
+				report(t, r, checkC01Derived(c, b, r), c)
+			}
+			return
+		}
 		o := c01Opts
 		o.NameElided = rapid.IntRange(0, 9).Draw(t, "nameElided") == 0
 		g := gram.GenGrammar(t, o)
@@ -277,6 +285,9 @@ func TestC01Replay(t *testing.T) {
 		b, msg := buildGrammar(c.G)
 		if msg != "" {
 			return violationf("build", "%s", msg)
+		}
+		if c.Derived > 0 {
+			return checkC01Derived(&c, b, nil)
 		}
 		return checkC01(&c, b, nil)
 	})
